@@ -23,6 +23,14 @@ HARNESS = os.path.join(ROOT, "harness")
 BUILD = os.path.join(ROOT, ".build")
 EVID = os.path.join(ROOT, "evidence")
 REPLAYS = os.path.join(ROOT, "replays")
+# development only (seedtool's isolated matrix runs): a copy of the harness whose replace
+# directive points at a scratch worktree, and a private output directory. The registered
+# commands never set these, so they always build /verif/harness against /repo.
+if os.environ.get("VERIF_DEV_HARNESS"):
+    HARNESS = os.environ["VERIF_DEV_HARNESS"]
+    BUILD = os.path.join(os.environ["VERIF_DEV_OUT"], "build")
+    EVID = os.path.join(os.environ["VERIF_DEV_OUT"], "evidence")
+    REPLAYS = os.path.join(os.environ["VERIF_DEV_OUT"], "replays")
 REGRESS = os.path.join(ROOT, "replays", "regress")
 FINDINGS = os.path.join(ROOT, "known_findings.json")
 
